@@ -20,6 +20,13 @@ and keybindings, plus the fixed class tree).  One transition =
      differs the difference is reported and the model is re-synchronised from what was read (one
      report per cause instead of a cascade)
 
+Worlds (world_schema()): 'base1/2/3' = namespaces ns1 [, ns2, ns3] with B(k1 key string, p uint8 = 7,
+s string[]) and S : B (q datetime) - in ns2 the class is stored as 'b' with properties K1, P, S and
+has no subclass, so that every request there differs in lexical case from what is stored;
+'k16' / 'kbool' = B with a second key of type uint16 / boolean; 'kref' = association R(k1 key
+string, r key B REF, t B REF, p) over B in two namespaces (single- and multi-namespace instances).
+BOUNDS[tier]['worlds'] gives the BFS depth per world.  Sharding: see plan().
+
 Signature: {'check': 'status-code' | 'reference-model' | 'isolation' | 'raised', 'what', 'op',
 'precond'}; 'precond' is the precondition class the MODEL sees (e.g. 'exists', 'not-found,cased',
 'found,pl-empty'), for isolation only whether the call succeeded.  The case is the shortest event
@@ -127,7 +134,7 @@ WORLDS = {
 }
 
 BOUNDS = {
-    'quick': {'worlds': {'base2': 3, 'k16': 3, 'kbool': 3, 'kref': 3},
+    'quick': {'worlds': {'base1': 3, 'base2': 3, 'k16': 3, 'kbool': 3, 'kref': 3},
               'key_values': ['a', 'A', 'b'], 'unknown_namespace': UNKNOWN_NS},
     'thorough': {'worlds': {'base1': 5, 'base3': 4, 'k16': 4, 'kbool': 4, 'kref': 4},
                  'key_values': ['a', 'A', 'b'], 'unknown_namespace': UNKNOWN_NS},
@@ -1036,7 +1043,7 @@ def _run_prefix(wid, history):
     return w
 
 
-SHARDS_PER_WORLD = 64
+SHARDS_PER_WORLD = 48
 
 
 def plan(tier, seed):
@@ -1110,6 +1117,8 @@ def run_shard(shard, tier):
 def finish(total, tier):
     for wid in BOUNDS[tier]['worlds']:
         total.extra['events_%s' % wid] = len(events_of(wid))
+    if total.state_hashes is not None:
+        total.states = len(total.state_hashes)
 
 
 def replay(case, tier):
